@@ -50,6 +50,7 @@ type caseObs struct {
 //	wc               wait for the first store commit after the stop was called
 //	hold / free      close / open the store's commit gate
 //	stop             StopAndWait (not awaited: the schedule goes on)
+//	stopd:<ms>       StopAndWait with a context deadline of ms (awaited; logged as its own call)
 //	force            Stop(force)
 //	stopall          graceful shutdown of the engine: StopAll (not awaited)
 //	stopallforce     forced shutdown: v2 StopAll(force=true); v1 StopAll then Stop(force)
@@ -122,6 +123,19 @@ func play(c caseIn) caseObs {
 			if !forced {
 				_, forceDone = sys.Call(f[0])
 				forced = true
+			}
+		case "stopd":
+			// a graceful StopAndWait under a short context deadline (awaited; it may time out and leave
+			// the pipeline running)
+			ms, _ := strconv.Atoi(f[1])
+			if ms < 1 {
+				ms = 1
+			}
+			if !stopped && !forced {
+				_, d := sys.CallCtx("stopwaitd", time.Duration(ms)*time.Millisecond)
+				if !stopx.WaitCh(d, 45*time.Second) {
+					o.Hung = "stopd"
+				}
 			}
 		case "stopall":
 			// graceful shutdown of the engine (not awaited: v2 waits for the batch in flight)
@@ -560,6 +574,19 @@ func directedShutdown(n int, direct bool) []string {
 	return append(sched, "stopall!", "w", "force")
 }
 
+// directedTimedOutStop (v2): a batch is parked in destinations that do not answer; a first graceful
+// stop gives up on its deadline and must leave the pipeline untouched; a second graceful stop arrives
+// while the same batch is still in flight; only then the destinations answer.
+func directedTimedOutStop(k, ms int) []string {
+	return []string{"start", fmt.Sprintf("e:s1:%d", k), "w", fmt.Sprintf("stopd:%d", ms), "stop!", "w"}
+}
+
+var timedOutTopos = []stopx.Topo{
+	{Engine: "v2", Sources: 1, Dests: 1},
+	{Engine: "v2", Sources: 1, Dests: 2},
+	{Engine: "v2", Sources: 1, Dests: 1, Procs: 1},
+}
+
 var directedTopos = []stopx.Topo{
 	{Sources: 1, Dests: 1},
 	{Sources: 1, Dests: 2},
@@ -589,6 +616,11 @@ func emitCorpus(w *hx.Writer, o hx.Opts, prop string) {
 				t.Engine = e
 				emit(w, caseIn{Prop: prop, Topo: t, Sched: directedAckInFlight(t, k)})
 			}
+		}
+	}
+	if o.Shard == 0 && prop == "c06" {
+		for k, t := range timedOutTopos {
+			emit(w, caseIn{Prop: prop, Topo: t, Sched: directedTimedOutStop(k+1, 30)})
 		}
 	}
 	if o.Shard == 0 && prop == "c06" && !strings.Contains(o.Mode, "noslow") {
@@ -678,6 +710,11 @@ func main() {
 			ti := (o.Shard*o.N + i)
 			t := topos[ti%len(topos)]
 			t.Engine = []string{"v1", "v2"}[(ti/len(topos))%2]
+			if prop == "c06" && i%8 == 7 && t.Engine == "v2" {
+				emit(w, caseIn{Prop: prop, Topo: timedOutTopos[r.Intn(len(timedOutTopos))],
+					Sched: directedTimedOutStop(r.Range(1, 3), r.Range(10, 40))})
+				continue
+			}
 			if prop == "c06" && i%4 == 3 {
 				dt := directedTopos[r.Intn(len(directedTopos))]
 				dt.Engine = t.Engine
